@@ -91,10 +91,25 @@ macro_rules! forward_display {
     };
 }
 forward_display!(Display);
-forward_display!(LowerHex);
-forward_display!(UpperHex);
-forward_display!(Binary);
-forward_display!(Octal);
+
+// Render in another base by value: i64's own LowerHex etc. print negative numbers as two's
+// complement, BigInt's print a sign, and the result must not depend on the representation.
+macro_rules! forward_display_signed {
+    ($impl:ident) => {
+        impl fmt::$impl for NInt {
+            fn fmt(&self, formatter: &mut fmt::Formatter) -> fmt::Result {
+                match self {
+                    NInt::Small(n) => fmt::$impl::fmt(&BigInt::from(*n), formatter),
+                    NInt::Big(n) => fmt::$impl::fmt(n, formatter),
+                }
+            }
+        }
+    };
+}
+forward_display_signed!(LowerHex);
+forward_display_signed!(UpperHex);
+forward_display_signed!(Binary);
+forward_display_signed!(Octal);
 
 macro_rules! impl_binary {
     ($imp:ident, $method:ident, $func:expr) => {
